@@ -379,6 +379,9 @@ def random_history(rng, nops):
             elif op == 'Subgraph':
                 d = rng.choice([i for i in heap if i != m])
                 ks = rng.sample(present, rng.randint(0, len(present))) if present else []
+                if ks and rng.random() < 0.4:          # the same key listed more than once
+                    for _ in range(rng.randint(1, 2)):
+                        ks.insert(rng.randrange(len(ks) + 1), rng.choice(ks))
                 ev.update(m=d, src=m, ks=ks)
                 touched = [d, m]
                 heap[d] = heap[m].subgraph(ks)
